@@ -15,7 +15,7 @@ from ..observe import canon, feq
 
 ID = 'C20'
 LEVEL = 'exploration'
-RUNS = {'quick': 3000, 'thorough': 80000}
+RUNS = {'quick': 3000, 'thorough': 240000}
 WALL = {'quick': 120, 'thorough': 1500}
 RULE = ("seeded op sequences over up to 4 monitor slots (Monitor/VerboseMonitor/LoggingMonitor, k in {None,1,-1,2,0.5,2.0}): call "
         "(lists, tuples, numpy arrays/scalars, vector costs, ids, inf/nan/-0.0/tiny/huge, caller re-using and mutating its own list), "
